@@ -10,8 +10,8 @@ Work ONLY inside that directory. Never read, write or run anything under /repo o
 
 How to run code from your worktree (important: the virtualenv's editable install points elsewhere, so you MUST set PYTHONPATH):
   cd {wt} && PYTHONPATH={wt}/src PATH=/venv/bin:$PATH SEMGREP_SEND_METRICS=off SEMGREP_ENABLE_VERSION_CHECK=0 /venv/bin/python ...
-The existing test suite (must still pass with your change; ~1-2 minutes):
-  cd {wt} && PYTHONPATH={wt}/src PATH=/venv/bin:$PATH SEMGREP_SEND_METRICS=off SEMGREP_ENABLE_VERSION_CHECK=0 /venv/bin/python -m pytest -q -p no:cacheprovider -n 12 tests
+The existing test suite (must still pass with your change; about 10 minutes because many tests start semgrep: while iterating run only the test files near your change, and the full suite once per finished change):
+  cd {wt} && PYTHONPATH={wt}/src PATH=/venv/bin:$PATH SEMGREP_SEND_METRICS=off SEMGREP_ENABLE_VERSION_CHECK=0 /venv/bin/python -m pytest -q -p no:cacheprovider -n 6 tests
 (Without your change, everything passes except tests/test_codetf.py (needs network) and 4 LLM tests in tests/test_context.py; those fail before and after and do not count. There is no network.)
 The CLI entry point is `codemodder.codemodder.run(argv) -> int` (console script `codemodder`); e.g.
   PYTHONPATH={wt}/src PATH=/venv/bin:$PATH SEMGREP_SEND_METRICS=off SEMGREP_ENABLE_VERSION_CHECK=0 /venv/bin/python -c "import sys; from codemodder.codemodder import run; sys.exit(run(sys.argv[1:]))" <dir> --codemod-include pixee:python/use-set-literal --output out.codetf
